@@ -238,6 +238,13 @@ pub struct C14Agent;
 
 impl Prop for C14Agent {
     type Case = GarbageCase;
+    fn case_time_limit_s(&self) -> u64 {
+        60
+    }
+    fn hang_is_violation(&self) -> bool {
+        // "in bounded time" is the property: a call that never comes back is the violation
+        true
+    }
     fn name(&self) -> &'static str {
         "agent-readers"
     }
